@@ -127,13 +127,7 @@ def P(pid, level, text, note, not_decided=()):
 
 BASE_NOTE = ("Trusted: Kani/CBMC, Verus/Z3, rustc; bitstream-io under the contract in harness/bits.rs + harness/tape.rs; std, arrayvec, md5. "
              "Stubbed callees are assumptions unless the evidence names the obligation that discharges their contract.")
-P("C03", "model_checking",
-  "Decoder contracts against an RFC 9639 stream generator written from the RFC: frame header parse proved for all 128-bit inputs; residual, subframe and "
-  "frame-body decoding proved per concrete grammar shape with all values symbolic on blocks of <= 6 samples; FIXED predictors complete, LPC for fixed coefficient vectors.",
-  BASE_NOTE, ["MD5 comparison in verify_reader (Frame::to_buf out of reach)", "blocks longer than 6 samples", "LPC with symbolic coefficients (SAT cannot match multipliers; Verus lemma L-LPC covers the arithmetic)"])
-P("C04", "model_checking",
-  "No-panic contracts on every decode function over an arbitrary field oracle with fault injection (all field values, all truncation points) on tiny blocks; header parsing for all 128-bit inputs.",
-  BASE_NOTE, ["termination (unwinding bounds only)", "peak memory", "reader front ends beyond FlacChannelReader"])
+
 
 E = "encode::verif_k::"
 for h, tier in [("k_enc_residuals_n3_o1", "quick"), ("k_enc_residuals_n4_o2", "quick"), ("k_enc_residuals_n4_o3", "thorough")]:
@@ -228,3 +222,155 @@ add("K-chan_error_no_stale", ["C14", "C07", "C05"], D + "k_chan_error_no_stale",
     functions=["decode::FlacChannelReader::fill_buf"],
     contract="FlacChannelReader::fill_buf: after a failed read the next call fails or delivers the next block; the previously buffered frame is never handed out again",
     stubs=["decode::Decoder::read_frame (abstract stream, fails once)"], timeout=300)
+
+# ================================================================= Verus obligations
+from table import O, OBLIGATIONS
+
+def vadd(id, props, parts, fns, contract, functions, domain="full", bound="", tier="quick", assumes=()):
+    OBLIGATIONS.append(O(id, props, backend="verus", harness=id, tier=tier, domain=domain, bound=bound, functions=functions,
+                         contract=contract, verus_parts=parts, verus_fns=fns, timeout=300, assumes=assumes))
+
+ERR = {"kind": "text", "text": "#[derive(Debug)]\npub enum Error { InvalidBlockSize, InvalidSampleRate, ExcessiveFrameNumber, InvalidChannels }\n"}
+STREAM = "src/stream.rs"
+
+vadd("V-crc-lemmas", ["C05", "C16", "C02"],
+     [{"kind": "file", "path": "crc.rs"},
+      {"kind": "fn", "file": "/verif/spec/spec.rs", "fn": "crc8_step", "subst": [(r"^pub fn crc8_step\(state: u8, byte: u8\) -> u8", "pub fn crc8_step_exec(state: u8, byte: u8) -> (r: u8)")],
+       "contract": "    ensures r == crc8_step(state, byte)"},
+      {"kind": "fn", "file": "/verif/spec/spec.rs", "fn": "crc16_step", "subst": [(r"^pub fn crc16_step\(state: u16, byte: u8\) -> u16", "pub fn crc16_step_exec(state: u16, byte: u8) -> (r: u16)")],
+       "contract": "    ensures r == crc16_step(state, byte)"}],
+     ["crc16_detects_single_byte_change", "crc8_detects_single_byte_change", "crc16_state_diff", "crc8_step_exec", "crc16_step_exec"],
+     "L-CRC16 / L-CRC8 (unbounded): byte strings of equal length that differ in one byte (e.g. one flipped bit) have different CRC-16 / CRC-8 from any start state, "
+     "so at most one of them checks; the executable spec functions of spec/spec.rs (to which K-crc8-spec / K-crc16-spec tie Crc8::update / Crc16::update) equal the Verus definitions",
+     ["spec::crc8_step", "spec::crc16_step", "(via K-crc*-spec) crc::Crc8::update, crc::Crc16::update"])
+
+vadd("V-arith-lemmas", ["C01", "C02", "C03"],
+     [{"kind": "file", "path": "lemmas.rs"},
+      {"kind": "fn", "file": "/verif/spec/spec.rs", "fn": "zigzag", "subst": [(r"^pub fn zigzag\(r: i64\) -> u64", "pub fn zigzag_exec(r: i64) -> (z: u64)")],
+       "contract": "    requires -0x1_0000_0000 <= r < 0x1_0000_0000\n    ensures z as int == zigzag(r as int)"},
+      {"kind": "fn", "file": "/verif/spec/spec.rs", "fn": "unzigzag", "subst": [(r"^pub fn unzigzag\(u: u64\) -> i64", "pub fn unzigzag_exec(u: u64) -> (r: i64)")],
+       "contract": "    requires u <= 0x1_FFFF_FFFF\n    ensures r as int == unzigzag(u as int)"}],
+     ["l_zz_inverse", "l_zz_inverse2", "l_zz_range", "l_mix_ms", "l_mix_ls", "l_mix_sr", "l_mix_width", "l_lpc_inverse", "l_part_total", "l_part_encoder_filter", "zigzag_exec", "unzigzag_exec"],
+     "L-ZZ (Rice folding is a bijection; valid residual <=> folded value <= 2^32-2), L-MIX (left/side, side/right, mid/side are invertible; side needs one more bit), "
+     "L-LPC (for ANY predictor, restoring from warm-up + residuals returns the samples: every order, coefficient vector and shift), L-PART (a legal partition layout covers "
+     "exactly block - order residuals with non-empty partitions; cutting from the end into chunks of block/2^po yields 2^po chunks iff order < block/2^po) -- all unbounded",
+     ["spec::zigzag", "spec::unzigzag"],
+     assumes=["L-LPC/L-MIX/L-PART are spec-level; their links to the code are the bounded Kani obligations K-predict_valid_*, K-enc_residuals_*, K-correlate_*, K-frames_valid_*, K-res_*"])
+
+BS_ENUM = {"kind": "item", "file": STREAM, "header": r"pub enum BlockSize<B> \{", "prefix": "#[derive(Copy, Clone, Debug, Eq, PartialEq)]\n#[verifier::allow(autoderive_clone_without_spec)]\n"}
+SR_ENUM = {"kind": "item", "file": STREAM, "header": r"pub enum SampleRate<R> \{", "prefix": "#[derive(Copy, Clone, Debug, Eq, PartialEq)]\n#[verifier::allow(autoderive_clone_without_spec)]\n"}
+vadd("V-blocksize-tables", ["C02", "C03", "C16", "C04"],
+     [ERR, BS_ENUM, {"kind": "file", "path": "tables.rs"}, SR_ENUM,
+      {"kind": "fn", "file": STREAM, "container": r"impl TryFrom<u16> for BlockSize<u16> \{", "fn": "try_from",
+       "subst": [(r"\bSelf::", "BlockSize::"), (r"Result<Self, Error>", "(r: Result<BlockSize<u16>, Error>)"), (r"^fn try_from", "fn block_size_try_from")],
+       "contract": "    ensures size == 0 ==> r.is_err(),\n            size != 0 ==> r.is_ok() && bs_value(r.unwrap()) == size && bs_wf(r.unwrap()),"},
+      {"kind": "fn", "file": STREAM, "container": r"impl From<BlockSize<u16>> for u16 \{", "fn": "from",
+       "subst": [(r"-> Self", "-> (r: u16)"), (r"^fn from", "fn u16_from_block_size")],
+       "contract": "    ensures r as int == bs_value(size)"},
+      {"kind": "text", "text": "fn block_size_roundtrip(n: u16) requires n != 0 { let b = block_size_try_from(n); match b { Ok(b) => { let m = u16_from_block_size(b); assert(m == n); } Err(_) => { assert(false); } } }\n"}],
+     ["block_size_try_from", "u16_from_block_size", "block_size_roundtrip"],
+     "BlockSize<u16>::try_from(n): Err iff n == 0; otherwise a code whose value is n and whose trailing field (n-1 in 8 or 16 bits) can hold it; u16::from(code) == value; "
+     "hence every block size 1..=65535 survives encode -> header code -> decode, and no block exceeds 65535 samples (allocation bound)",
+     ["stream::BlockSize<u16>::try_from(u16)", "u16::from(stream::BlockSize<u16>)"])
+
+vadd("V-samplerate-tables", ["C02", "C16"],
+     [ERR, SR_ENUM, BS_ENUM, {"kind": "file", "path": "tables.rs"},
+      {"kind": "fn", "file": STREAM, "container": r"impl TryFrom<u32> for SampleRate<u32> \{", "fn": "try_from",
+       "subst": [(r"\bSelf::", "SampleRate::"), (r"Result<Self, Error>", "(r: Result<SampleRate<u32>, Error>)"), (r"^fn try_from", "fn sample_rate_try_from"), (r"rate < 1 << 20", "rate < 1048576")],
+       "expect": ["rate < 1 << 20"],
+       "contract": "    ensures sample_rate >= 1048576 ==> r.is_err(),\n            sample_rate < 1048576 ==> r.is_ok() && sr_value(r.unwrap()) == sample_rate && sr_wf(r.unwrap()),"},
+      {"kind": "fn", "file": STREAM, "container": r"impl From<SampleRate<u32>> for u32 \{", "fn": "from",
+       "subst": [(r"-> Self", "-> (r: u32)"), (r"^fn from", "fn u32_from_sample_rate")],
+       "contract": "    ensures r as int == sr_value(rate)"}],
+     ["sample_rate_try_from", "u32_from_sample_rate"],
+     "SampleRate<u32>::try_from(r): Err iff r >= 2^20; otherwise a code whose value is r and that is representable in the field the code announces (kHz in 8 bits, Hz / tens of Hz in 16 bits), "
+     "STREAMINFO reference only otherwise; u32::from(code) == value",
+     ["stream::SampleRate<u32>::try_from(u32)", "u32::from(stream::SampleRate<u32>)"],
+     assumes=["textual substitution `1 << 20` -> `1048576` in the extracted guard (Verus does not evaluate the shift); the original text is checked to be present"])
+
+vadd("V-frame-number", ["C16", "C02"],
+     [ERR, {"kind": "text", "text": "pub struct FrameNumber(pub u64);\nconst MAX_FRAME_NUMBER: u64 = 68719476735;\n"},
+      {"kind": "fn", "file": STREAM, "container": r"impl FrameNumber \{", "fn": "try_increment",
+       "new_sig": "pub fn try_increment(this: &mut FrameNumber) -> (r: Result<(), Error>)",
+       "subst": [(r"\bself\.0", "this.0"), (r"Self::MAX_FRAME_NUMBER", "MAX_FRAME_NUMBER")],
+       "expect": ["Self::MAX_FRAME_NUMBER"],
+       "contract": "    ensures old(this).0 < 0xF_FFFF_FFFF ==> r.is_ok() && final(this).0 == old(this).0 + 1,\n            old(this).0 >= 0xF_FFFF_FFFF ==> r.is_err() && final(this).0 == old(this).0,"}],
+     ["try_increment"],
+     "FrameNumber::try_increment: below 2^36-1 the number grows by exactly one (frames are numbered consecutively); at 2^36-1 it fails and leaves the number unchanged, never wraps silently",
+     ["stream::FrameNumber::try_increment"],
+     assumes=["the constant MAX_FRAME_NUMBER = (1 << 36) - 1 is restated as 68719476735 (checked by K-hdr_build_vs_rfc, which accepts numbers up to 2^36-1 only)"])
+
+
+# ================================================================= claimed properties
+P("C01", "model_checking",
+  "Lossless = (encoder emits the RFC coding of what it was given, for every parameter choice) o (decoder inverts every RFC coding). Both halves are contract obligations on the real "
+  "functions against one RFC 9639 generator/reference written from the RFC: residual computation (fixed and LPC, exact), stereo decorrelation both ways, Rice/escape residual coding at "
+  "partition order 0, subframe and frame-body decoding, wasted bits, verbatim fallback; tiny blocks, all sample values. Unbounded Verus lemmas (any predictor is invertible, mid/side "
+  "invertible, Rice folding bijective, partition layout) carry the arithmetic to every block length.",
+  BASE_NOTE, ["partition search above order 0 beyond the 4-sample block (Kani runs out of memory); its layout rule is L-PART + K-write_res_short_*",
+              "audio::Frame interleaving and the reader/writer front ends (MultiZip/VecDeque do not finish in CBMC)",
+              "LPC with symbolic coefficients on the decode side (SAT cannot match two multiplier circuits; fixed coefficient vectors + lemma L-LPC instead)",
+              "encode_frame assembly (> 12 min)"])
+P("C02", "model_checking",
+  "The independent judge is an RFC 9639 reference written from the RFC (spec/ + harness/spec*.rs). Proved for the whole domain: CRC-8/CRC-16 tables equal the RFC polynomials, every "
+  "constructible frame header builds to a valid RFC header that reads back to the same values (shortest number coding, zero reserved bit), CRC-8 placed after exactly the header bytes, "
+  "block-size / sample-rate code tables (Verus, on the extracted functions), consecutive frame numbers. Bounded: residual coding, fixed/LPC subframe field sequences, residual exactness.",
+  BASE_NOTE, ["encode_frame: zero padding to the byte boundary and CRC-16 placement (out of reach; the CRC writer fold itself is K-crc_rw_fold)",
+              "every non-final block has the advertised size (writer front ends out of reach)", "quality of the float analysis (irrelevant to conformance)"])
+P("C03", "model_checking",
+  "Decoder contracts against an RFC 9639 stream generator that chooses every syntactic alternative: frame header parse proved for ALL 128-bit inputs (variable-blocksize numbering, every "
+  "uncommon block-size / sample-rate coding, STREAMINFO references); residuals (Rice, Rice2 at any depth, escapes, zero-width), FIXED 0..4, LPC, wasted bits, 33-bit side channels, all four "
+  "channel assignments verified per concrete grammar shape with all values symbolic on blocks of <= 6 samples.",
+  BASE_NOTE, ["MD5 comparison in verify_reader (Frame::to_buf out of reach)", "blocks longer than 6 samples", "LPC orders above 3 and symbolic coefficients (lemma L-LPC covers the arithmetic)"])
+P("C04", "model_checking",
+  "No-panic contracts on every decode function over an arbitrary field oracle with fault injection (all field values, all truncation points) on tiny blocks, header parsing for all 128-bit "
+  "inputs, overflow-free prediction and channel reconstruction for all values; Kani checks the overflow-checks-on profile, which subsumes the optimised one.",
+  BASE_NOTE, ["termination (unwinding bounds only)", "peak memory beyond block size <= 65535 x 8 channels (V-blocksize-tables)", "sample/byte reader front ends, FlacStreamReader sync scan"])
+P("C05", "model_checking",
+  "Unbounded Verus lemmas: any change of one byte in a frame of unchanged length changes CRC-16 / CRC-8, so it cannot still check. Proved links: the crate's CRC tables equal the RFC "
+  "polynomial; a frame is released only if CRC-16 over every consumed byte is zero; a header only if CRC-8 is; every reserved header/subframe/residual code is rejected; STREAMINFO "
+  "consistency; end-of-stream accounting incl. over-long final blocks; read faults are never swallowed.",
+  BASE_NOTE, ["flips that change the parse length (the statement's own escape clause)", "MD5 verification (out of reach)", "whole-file prefix property (composition of the per-frame contracts, argued)"])
+P("C06", "model_checking",
+  "Seek-table lookup (all 2-point tables, all targets), byte-position arithmetic of FlacByteReader::seek for Start/Current/End (all totals and offsets, 5 layouts), and FlacChannelReader "
+  "seek/fill_buf/consume from arbitrary well-formed states over an abstract stream (decoder replaced by its contract).",
+  BASE_NOTE, ["FlacSampleReader / FlacByteReader refill and skip-forward after landing (Frame::iter / to_buf do not finish in CBMC)"])
+P("C07", "model_checking",
+  "FlacChannelReader delivers the stream exactly once in order from every well-formed state, end of stream is idempotent, no stale frame after an error; Decoder::read_frame end-of-stream "
+  "idempotence; per-sample byte images for 8/16/24/32-bit in both byte orders proved for all values.",
+  BASE_NOTE, ["FlacSampleReader::read / FlacByteReader refill (out of reach)", "independence from how the underlying Read fragments data (bitstream-io / std contract)"])
+P("C09", "model_checking",
+  "Seek-point bookkeeping of Encoder::encode (first sample, byte offset, length per frame; sample counter; declared-length overflow), byte counting under short writes, placeholder table "
+  "and interval filters, ordering rule shared by SEEKTABLE reader and writer.",
+  BASE_NOTE, ["Encoder::finalize_inner: the three seek-table layouts, size neutrality, MD5, header rewrite (does not finish in CBMC)", "frame-size extrema in encode_frame", "regenerated table equality"])
+P("C11", "model_checking",
+  "STREAMINFO, block header and seek point: parse/serialise identity proved for ALL bit strings (field by field against RFC 9639 8.2), sizes reported equal sizes written; BlockSize / "
+  "bit-counter arithmetic exact; seek-table ordering rule.",
+  BASE_NOTE, ["VORBIS_COMMENT, PICTURE, CUESHEET, APPLICATION payloads (Vec/String building does not finish)", "write_blocks / BlockIterator single-instance rules (out of reach)"])
+P("C12", "model_checking",
+  "Totality of STREAMINFO / block header / seek point parsing on all inputs, accessors (duration, decoded_len, channel mask) for all values, PNG and GIF sniffers on all inputs of the "
+  "bounded length.",
+  BASE_NOTE, ["cue sheet text parser and cue arithmetic (string code; CDDAOffset::sub / track_offsets are known unchecked subtractions, see DESIGN)", "JPEG sniffer (does not finish)", "VORBIS_COMMENT / PICTURE / CUESHEET block parsers"])
+P("C13", "model_checking",
+  "Reduced to what is within reach: read faults at every read are propagated by every decode function; CRC reader/writer and the byte counter account only for bytes actually transferred "
+  "(short writes) and leave state unchanged on failure.",
+  BASE_NOTE, ["the whole write side: write_blocks, update_file (incl. the unflushed BufWriter, a known finding), encode_frame, finalize_inner - all measured out of reach"])
+P("C14", "model_checking",
+  "Append-only encoding before finalize (Encoder::encode never seeks), provisional STREAMINFO parses (STREAMINFO identity for all bit strings), a partial trailing frame yields an error or "
+  "end of stream and never samples (read_frame contract, CRC gate, read-fault propagation), no stale frame after the error.",
+  BASE_NOTE, ["the composition 'prefix of frames => prefix of PCM' is argued over the contracts, not machine-checked", "Encoder::new / write_blocks (out of reach)"])
+P("C15", "model_checking",
+  "Options setters over their whole parameter space (Ok exactly for the documented ranges), declared-length enforcement in Encoder::encode, 1-bit depth STREAMINFO writable.",
+  BASE_NOTE, ["Encoder::new and the front-end constructors (write_blocks does not finish)", "FlacStreamWriter::write argument validation (Frame::fill_from_samples out of reach)", "LPC order 32 debug assertion in autocorrelate (float code)"])
+P("C16", "model_checking",
+  "Subset header parse accepts no STREAMINFO reference and reads exactly the RFC values (all 128-bit inputs); every header the stream writer can build reads back identically; frame counter "
+  "increments by one and fails at 2^36-1 (Verus, extracted); CRC-8 and CRC-16 gates; CRC lemmas (a look-alike sync with a wrong byte cannot pass).",
+  BASE_NOTE, ["FlacStreamReader::read sync scanning across refill boundaries (does not finish)", "multi-frame garbage interleavings"])
+P("C17", "model_checking",
+  "Frame header parse/build identity against the RFC for all inputs; write_subframe emits the RFC field sequence of a parsed structure (FIXED order 1, bounded).",
+  BASE_NOTE, ["stream::read_subframe, Residuals::from_reader and Subframe::decode build nested Vec structures through iterator collects that CBMC does not get through (> 5 min in symbolic execution "
+              "for a 3-sample subframe): parse->write identity, expansion length and agreement with the decoder are NOT decided", "Frame::read / write byte identity, FrameIterator offsets"])
+P("C19", "model_checking",
+  "encode_subframe never returns a subframe larger than the VERBATIM one (8 + wasted + n x effective bits), for every outcome of the candidate encoders (sizes from a boundary set, failures "
+  "symbolic) incl. non-multiple-of-8 depths; all-zero input costs 8 + bps bits.",
+  BASE_NOTE, ["accuracy of the float estimates (affects how much smaller, never the bound)", "frame overhead (encode_frame out of reach; header <= 16 bytes by K-hdr_build_vs_rfc)", "constant non-zero blocks through encode_fixed_subframe"])
